@@ -6,28 +6,67 @@ import os
 HERE = os.path.dirname(os.path.dirname(os.path.abspath(__file__)))
 
 # id -> (technique, level text, level note, design ref)
+AI = "abstract interpretation of the package's own source over a term domain (sympy terms, units as algebra, if-conversion with path facts; the library is parsed, never imported or run)"
+RS = " Also rule RS: derived-state coherence dataflow (a memoised/derived attribute must be reset wherever the state it was computed from is assigned)."
+
 CHECKS = {
-    "C01": ("term normal forms of def-use slices (abstract interpretation over sympy terms) + interval/sign facts on slice bounds + ledger of cropping sites",
-            "Decides, for every input, the time-metadata algebra of every cropping site (start_time' = start_time + start/sample_rate, sample_rate' = sample_rate/step, stop_time, dt, contains' Boolean form), that slice bounds entering formulas come from slice.indices, that a signal without start time never acquires one, and that computed signal-level slice bounds are clamped non-negative. Does not decide floating-point rounding of Time arithmetic.",
+    "C01": (AI + " + sign domain on slice bounds + truth-table Boolean equality",
+            "Decides, for every input, the time-metadata algebra of every cropping site (start_time' = start_time + clamp(start)/sample_rate with CPython's slice.indices clamp, sample_rate' = sample_rate/step, stop_time, dt, the Boolean form of contains), that a signal without start time never acquires one, the crop ledgers of fast_len and time_shift(crop=True), and that every signal-level slice bound computed by library code is non-negative. Not decided: floating-point rounding of astropy Time arithmetic." + RS,
             "real-number semantics for formulas; API table for numpy/astropy; expected terms transcribed from the property statement", "4/C01"),
-    "C02": ("term normal forms + affine index sequences", "Decides the channel-label formula for all three alignments and both parities, band edges, and that _freq_slice's re-centring reproduces the selected labels through the *extracted* label formula (writer and reader tied together); Stokes selection overrides nothing. Not decided: Quantity round-off.", "real-number semantics; sympy", "4/C02"),
-    "C03": ("term normal forms + shape-kind/index-coverage analysis of the zero-fill loop", "Decides the phase-ramp term, FFT/IFFT pairing on axis 0, zero-fill extents (floor/ceil), coverage of every element of the sample shape by the zero-fill index, crop bounds and unchanged metadata. Not decided: DFT accuracy.", "API table; real-number semantics", "4/C03"),
-    "C04": ("term normal forms + index-coverage analysis", "Decides the mixer term, transform pairing fft->fftshift->zeroing->ifftshift->ifft, zero-fill extents and coverage, unchanged metadata. Not decided: value accuracy.", "API table; real-number semantics", "4/C04"),
-    "C05": ("term normal forms with units as algebra", "Decides the transfer-function term including units and the constant K, chirp plumbing (per-channel frequency, N, dt, reference), Dask/eager agreement of the chirp builder, crop terms and clamping. Not decided: complex64 accuracy.", "units as positive symbols; sympy", "4/C05"),
-    "C06": ("term normal forms with units as algebra + loop-body dataflow", "Decides the delay law with units, derived antisymmetry/additivity, sample_delay, and the index identity of incoherent dedispersion (round before int cast, own-channel pairing, crop_before, start_time advance). Not decided: Quantity rounding.", "units as positive symbols; sympy", "4/C06"),
-    "C07": ("provenance/taint of operands + branch dispatch table + exhaustive boolean case table", "Decides the routing and bookkeeping necessary for two-double results: no never-copy constructor on non-array operands, every ufunc family named in the statement has a branch built by from_angles from separate int/frac parts with no single-double collapse, factor/divisor forwarded into day_frac, and the real/imaginary sign table (i*i=-1). Not decided: error-free-transformation arithmetic itself.", "numpy>=2 copy=False semantics as probed; astropy API table", "4/C07"),
-    "C08": ("term normal forms (polynomial identity) + CFG dominance of range guards + sibling-branch agreement + alias analysis of the predictor table", "Decides that from_polyco builds exactly the tempo polynomial (coefficient increments, 60*F0, domain scale, line count, D->E), that range checks dominate every evaluation, sibling scalar/array branches agree, derivative order and unit agree, the interval merge tolerance, and that prediction methods do not mutate the table. Not decided: 1e-8 accuracy, root finder convergence, merge-loop algorithm.", "numpy.polynomial.Polynomial(domain=) semantics from the API table", "4/C08"),
-    "C09": ("laziness taint analysis (forcing sinks) + sibling agreement of Dask/NumPy dispatch branches", "Decides that no signal method/transform forces a possibly-Dask value (compute/np.asarray/truthiness/iteration) outside the sanctioned explicit points, that each back-end dispatch builds the same expression in both branches with agreeing declared dtype/shape, and that container helpers override nothing. Not decided: scheduler independence, chunk-layout acceptance, bitwise value equality.", "API table of dispatching vs forcing numpy functions, re-validated against installed dask/numpy by introspection", "4/C09"),
-    "C10": ("CFG dominance of rejection guards + loop-body term rules + affine sequences", "Decides that every rejection guard named in the statement dominates the join and is universally quantified over all pieces, the contiguity term of the time loop (n advanced on every path), the frequency contiguity term, the re-centring identity and the override set. Not decided: isclose tolerances.", "astropy isclose semantics", "4/C10"),
-    "C11": ("CFG dominance + same-value dataflow + effect analysis (statelessness) + constant agreement + axis-role permutation facts", "Decides that bounds guards dominate the read, the same normalised offset/n reach _read_data and time_at, time_at/offset_at formulas, no reading method writes reader state or lets the file handle escape (seek dominates read), the factor-2 agreement for real data, and reader axis permutations/sideband handling. Not decided: decoding inside baseband, real concurrency.", "baseband API table", "4/C11"),
-    "C12": ("term normal forms + CFG dominance", "Decides normalisation of t in all three forms, the rejection guards, and that shift, new start and final slice compose to start_time + t/sample_rate with exactly n samples; integer t takes the plain slice. Not decided: interpolation accuracy.", "real-number semantics", "4/C12"),
-    "C13": ("term normal forms over complex symbols", "Decides all conversion and Stokes identities over the complex numbers per syntactic branch (unitarity, inverse, basis independence, I^2=Q^2+U^2+V^2, I=sum of intensities, stacking order vs _stokes_ids, component selection axis). Not decided: float rounding.", "sympy", "4/C13"),
-    "C14": ("inter-procedural may-alias (ownership) analysis with mutation sinks and function summaries", "Decides, for every input, that no library statement writes to anything that may alias an argument's object, buffer or metadata (the rule is the property for writes made by library code).", "view/copy table for numpy/astropy/dask; third-party code does not write its inputs unless listed", "4/C14"),
-    "C15": ("non-reassociated expression-tree comparison + key-order rules + sibling idiom agreement", "Decides that comparisons difference the int and frac parts separately before adding, lexsort key order and exact remainder key, argmin/argmax part-wise subtraction, decimal-splitting idiom (partition) at both sites, and that from_string hands real arrays to the constructor for real strings. Not decided: digit-exactness of to_string.", "numpy.lexsort key order", "4/C15"),
-    "C16": ("CFG dominance (validate-before-store) + who-may-write tables + signature/attribute agreement", "Decides that every metadata setter validates before storing and converts failures to ValueError, constructor checks dominate the data store, private fields are written only by their setter/constructor, baseband chan_bw is tied to sample_rate, like()'s copied names exist as readable properties, and no class customises pickling.", "astropy validators behave as documented", "4/C16"),
-    "C17": ("CFG dominance + unwrap/rewrap dataflow + protocol signature rules", "Decides that the refusal guard dominates every use of inputs, inputs and outs are unwrapped, the ufunc is called once, results are rewrapped by like() of the first operand's type or returned as the given out object, and __array__ follows the NumPy protocol signature. Not decided: per-ufunc values.", "NumPy __array_ufunc__/__array__ protocol", "4/C17"),
-    "C19": ("slot table + term normal forms + axis-discipline rules", "Decides the Hilbert weight table and its derived identity h[k]+h[N-k]=2, the mixer term, decimation slice, that one axis is used for every step, the dtype rule, and reader factor agreement. Not decided: FFT round-off.", "real-number semantics", "4/C19"),
-    "C20": ("dispatch-table and closure dataflow rules + axis-role permutation facts + affine sequences", "Decides the fourteen-name table against installed scipy/dask (introspection of those libraries only), AttributeError for other names, lookup by the requested name, both dispatch bodies wrapping the same closure variable; STFT/ISTFT axis roles, merged channel order, sample-rate and label identities for both parities. Not decided: numerical equality with the reference transform.", "scipy.fft / dask.array.fft introspection", "4/C20"),
+    "C02": (AI + "; small-scope exhaustive enumeration of channel counts and slice bounds",
+            "Decides the channel-label formula for all alignments and both parities, band edges, and that the labels of a frequency slice, of repeated/combined slices, of a trailing-axis selection and of a Stokes component selected by name - read back through the package's own channel_freqs property - equal the selected labels of the original. Not decided: Quantity round-off." + RS,
+            "real-number semantics; sympy", "4/C02"),
+    "C03": (AI + " with explicit per-element arrays (indexed Sel terms, store sets, explicit np.where masks)",
+            "Decides the phase-ramp term ifft(fft(x)*exp(-2 pi i s k/N)) for scalar, Quantity and per-element array shifts (axis alignment of the shift read off the result term), NumPy and Dask branches, zero-fill coverage of the returned data for every broadcastable shift shape incl. sizes beyond every size threshold the code compares against, crop bounds, unchanged metadata, refusal of too many shift axes. Not decided: DFT accuracy." + RS,
+            "API table; real-number semantics; numpy basic-index store semantics", "4/C03"),
+    "C04": (AI + " with explicit per-element arrays (store sets, explicit masks)",
+            "Decides the mixer term, transform pairing fft->fftshift->zeroing->ifftshift->ifft, zero-fill coverage of the returned data in bins for every broadcastable shift shape, unit handling of the shift, unchanged metadata. Not decided: value accuracy." + RS,
+            "API table; real-number semantics", "4/C04"),
+    "C05": (AI,
+            "Decides the transfer-function term including units and the constant K (|H| = 1 and H(DM)H(-DM) = 1 derived), per-channel chirp plumbing for NumPy and Dask signals (declared dtype/shape of the delayed chirp), the filtered data term, crop start/stop terms with clamping, start-time advance, supplied-chirp agreement. Not decided: complex64 accuracy." + RS,
+            "units as positive symbols; sympy", "4/C05"),
+    "C06": (AI + "; fixed-delay scenarios for the realignment",
+            "Decides the delay law with units, antisymmetry/additivity, sample_delay = time_delay*rate for any DM unit, the per-channel realignment identity (symbolic delays: lo_i - crop = round(delay_i), own channel, equal lengths, in-range sources; fixed delay patterns: any slicing strategy - per channel, blocks, one slice - yields channel i over [crop+r_i, crop+r_i+N-max)), start-time advance, ledger. Not decided: Quantity rounding." + RS,
+            "units as positive symbols; round as floor(x+1/2)", "4/C06"),
+    "C07": (AI + " on a model of Phase objects; identical-argument recursion detection; record-array shape rules",
+            "Decides the routing necessary for two-double results: no never-copy constructor on non-array operands, every ufunc family of the statement built by from_angles from the separate int/frac parts in operand order with the physical factor/divisor, termination and two-part correction of the floor-divide family also for Phase divisors, storage of both parts for operands of any broadcast shape, the real/imaginary sign table (i*i = -1). Not decided: the error-free-transformation arithmetic inside day_frac (two_sum/two_product)." + RS,
+            "numpy>=2 copy=False semantics; astropy API table", "4/C07"),
+    "C08": (AI + " on symbolic polyco text and a predictor-table model; CFG dominance; alias analysis of the table",
+            "Decides that from_polyco builds exactly the tempo polynomial (all coefficient counts, D/E exponents, reference phase split, 60*F0, domain scale), TMID precision (text or two doubles into Time), scalar/array branch agreement for any index order, derivative order and unit, range-check acceptance condition and dominance, interval merging on concrete tables, that prediction methods never write the table. Not decided: 1e-8 accuracy of polynomial evaluation, root-finder convergence." + RS,
+            "numpy.polynomial.Polynomial(domain=) semantics from the API table", "4/C08"),
+    "C09": ("laziness taint analysis (forcing sinks) + " + AI + " on NumPy- and Dask-tagged signals + structural rules on graph keys and read splitting",
+            "Decides that no signal method/transform forces a possibly-Dask value outside the sanctioned explicit points, that every public operation builds the same term with the same class/metadata on both back ends and stays Dask-backed, declared dtype/shape of delayed results, that a hand-written Dask token covers the read path's state, that a lazy read wraps the same single read as the eager one. Not decided: scheduler independence, chunk-layout acceptance, bitwise value equality." + RS,
+            "API table of dispatching vs forcing numpy functions, re-validated against installed dask/numpy by introspection", "4/C09"),
+    "C10": (AI + " reading path facts at the join",
+            "Decides that for every piece the sample-rate, channel-bandwidth, type, time-contiguity (cumulative), equal-start and equal/adjacent-label conditions are facts of the accepting path, the result's start time, data term, labels read back and override set, definite refusals. Not decided: isclose tolerances." + RS,
+            "astropy isclose semantics", "4/C10"),
+    "C11": (AI + " against a stream-reader/file model + effect scans + alias analysis of memoised results",
+            "Decides bounds facts, operator.index flow, seek/read arguments, start time = time_at(offset), dtype/length, data term (conjugation, transposition, channel flip), reader state identical before/after and repeated read identical, Dask read = eager read (single read per request, declared dtype/shape), time_at/offset_at inverses, no reading method writes reader state, tokeniser coverage, memoised results never written, factor-2 agreement for real data. Not decided: decoding inside baseband, real concurrency." + RS,
+            "baseband API modelled by the stream-reader model", "4/C11"),
+    "C12": (AI,
+            "Decides normalisation of t in all three forms (scale-aware Time difference), rejection guards, that shift, new start and final slice compose to start_time + t/sample_rate with exactly n samples, integer t takes the plain slice. Not decided: interpolation accuracy; floating-point round-off of the bounds test for durations." + RS,
+            "real-number semantics", "4/C12"),
+    "C13": (AI + " over complex symbols with explicit polarisation components",
+            "Decides all conversion and Stokes identities per branch (definitions of L/R, inverse, power, basis independence, I^2=Q^2+U^2+V^2, I=sum of intensities, component access by name on the Stokes axis also with trailing dimensions), whichever formulation (explicit formulas, matrix product, tensordot) the source uses. Not decided: float rounding." + RS,
+            "sympy", "4/C13"),
+    "C14": ("inter-procedural may-alias (ownership) analysis with mutation sinks, function summaries and memoised-result roots",
+            "Decides, for every input, that no library statement writes to anything that may alias an argument's object, buffer or metadata, or an object kept by a memo table (private derived attributes of self are sanctioned and handed to rule RS)." + RS,
+            "view/copy table for numpy/astropy/dask; third-party code does not write its inputs unless listed", "4/C14"),
+    "C15": (AI + " on the Phase model; IEEE-double evaluation of association-preserving terms on near-tie vectors; constant folding of concrete doubles for renderings",
+            "Decides that comparisons and argmin/argmax difference the parts before adding (and select the exact extremum in doubles), lexsort keys, that min/max/sort select by the flat index in logical order, decimal parsing of 600+ spellings exactly, from_string kind consistency, to_string/format renderings of dyadic and sub-resolution values and the round trip. Not decided: renderings of arbitrary non-dyadic fractions." + RS,
+            "numpy.lexsort key order; CPython/NumPy shortest-repr of doubles", "4/C15"),
+    "C16": (AI + " of constructors and setters on tables of valid/invalid arguments + who-may-write tables + signature agreement",
+            "Decides that every metadata setter validates before storing and converts failures to ValueError (also on both arms of undecided tests), constructor shape/dtype contracts incl. byte order, baseband chan_bw tied to sample_rate at creation and by every library operation evaluated, like()/container helpers reproduce every state attribute, private fields written only by their setter/constructor, no pickling hooks." + RS,
+            "astropy validators behave as documented; numpy casting table by introspection", "4/C16"),
+    "C17": (AI + " of __array_ufunc__ with an abstract ufunc + protocol signature rules",
+            "Decides refusal of non-call methods and matmul before unwrapping, that signals among inputs/outs are replaced by their data and every other operand reaches the ufunc untouched (Python scalars stay scalars, Quantities keep their class), single call, kwargs forwarded, rewrap in the dispatching signal's class or return of the given out object, __array__ protocol. Not decided: per-ufunc values." + RS,
+            "NumPy __array_ufunc__/__array__ protocol", "4/C17"),
+    "C19": (AI + " on explicit arrays of symbols with exact DFT sums",
+            "Decides the definition for N = 1..9 (16 thorough) and ranks 1-3 on every axis: out[m] = (-1)^m analytic(x)[2m] with the one-sided weights, (-1)^m Re(out[m]) = x[2m], ceil(N/2) samples, other axes in place (also when empty), whatever transform pair is used; the symbolic-N result term, dtype rule, refusals, and the factor-2 agreement with the readers. Not decided: FFT round-off; N beyond the enumerated range is covered by the symbolic term rule only for the fft/ifft formulation." + RS,
+            "complex-number semantics; closed-form constants compared at 40 digits", "4/C19"),
+    "C20": (AI + " of the module __getattr__ dispatcher + introspection of installed scipy/dask + exact small-instance STFT/ISTFT",
+            "Decides the fourteen-name table, AttributeError for other names, that each dispatcher applies the same-named scipy transform (NumPy) resp. fft_wrap of it (Dask) with arguments unchanged and a declared dtype equal to scipy's for eleven input dtypes; STFT definition, ISTFT(STFT) = id on explicit arrays, sample-rate/start-time/label identities for both parities and all alignments. Not decided: numerical equality with the reference transform." + RS,
+            "scipy.fft / dask.array.fft introspection", "4/C20"),
 }
 
 NOT_APPLICABLE_ALWAYS = {
